@@ -129,10 +129,12 @@ def case_s(api, name, v):
         both = st.tuples(fs, rs)
     kv = ["ctor", "ctor", "ctor", "setter"] + (["none"] if tuple(v) == (1, 2) else [])
     return st.builds(
-        lambda fr, args, chunks, cred, kv: {
+        lambda fr, args, chunks, cred, kv, ctx: dict({
             "mode": "scripted", "api": api, "op": name, "v": list(v), "args": args,
             "resp": fr[1], "chunks": chunks, "fault": fr[0], "cred": cred, "kv": kv},
-        both, op.args(v, api), chunks_s, cred_s, st.sampled_from(kv))
+            **({"ctx": True} if ctx and api == "pie" else {})),
+        both, op.args(v, api), chunks_s, cred_s, st.sampled_from(kv),
+        st.sampled_from([False, False, True]))
 
 
 def targets():
